@@ -314,6 +314,24 @@ class Grammar:
         rec(self.child_lang(name))
         return out
 
+    def descendants(self, name):
+        """rules that can occur (at any depth) inside a Pair of rule `name` (excluding the rule itself unless it is recursive)"""
+        if not hasattr(self, "_desc"):
+            self._desc = {}
+        if name in self._desc:
+            return self._desc[name]
+        out, todo = set(), [name]
+        while todo:
+            r = todo.pop()
+            if r not in self.rules:
+                continue
+            for c in self.alphabet(r):
+                if c not in out:
+                    out.add(c)
+                    todo.append(c)
+        self._desc[name] = frozenset(out)
+        return self._desc[name]
+
     # ---- finite text language --------------------------------------------------
     def text_lang(self, name, limit=200):
         """finite set of texts the rule can match, or None if infinite/unknown (lookaheads contribute nothing)"""
